@@ -165,8 +165,13 @@ def plan(tier):
         if not m:
             raise Inconclusive("server.rs: decode loop not found")
         body = m.group(1)
-        order = [body.find("Ok(Some(value)) =>"), body.find("Ok(None) =>"), body.find("Err(RespError::Incomplete) =>"), body.find("Err(e) =>")]
-        if -1 in order or order != sorted(order):
+        i_some, i_none = body.find("Ok(Some(value)) =>"), body.find("Ok(None) =>")
+        i_inc = body.find("Err(RespError::Incomplete) =>")
+        i_err = body.find("Err(e) =>", i_inc) if i_inc >= 0 else -1
+        order = [i_some, i_none, i_inc, i_err]
+        # both "wait" arms must just leave the decode loop
+        waits = re.findall(r"(?:Ok\(None\)|Err\(RespError::Incomplete\)) => \{\s*(?://[^\n]*\n\s*)*break;\s*\}", body)
+        if -1 in order or order != sorted(order) or len(waits) < 2:
             raise Inconclusive("server.rs: decode loop arms are not Ok(Some)/Ok(None)/Err(Incomplete)/Err(e) any more")
     p.source_checks.append(skeleton_check)
     p.assumptions = [
